@@ -880,11 +880,11 @@ impl Driver {
             self.set_opt(Opt::AutoReplaceTopicAlias, true);
         }
         if self.r.below(100) < (if f == Focus::Timers { 60 } else { 25 }) {
-            let v = *self.r.pick(&[0u64, 500, 500]);
+            let v = *self.r.pick(&[0u64, 500, 500, 500, 1u64 << 32, u64::MAX]);
             self.set_pingresp_timeout(v);
         }
         if self.r.below(100) < (if f == Focus::Timers { 35 } else { 8 }) {
-            let v = *self.r.pick(&[None, Some(0u64), Some(3000)]);
+            let v = *self.r.pick(&[None, Some(0u64), Some(3000), Some(3000), Some(1u64 << 32), Some(5_000_000_000), Some(u64::MAX)]);
             self.set_ping_interval(v);
         }
     }
@@ -1020,8 +1020,25 @@ impl Driver {
             self.id_ops();
             return;
         }
+        // the peer stalls in the middle of a (possibly big) frame and the keep-alive expires
+        if self.model.status == St::Cd && self.model.pending.is_empty() && self.model.armed.contains(&Timer::PingreqRecv) && self.r.below(1000) < (if matches!(f, Focus::Timers | Focus::Hostile) { 25 } else { 4 }) {
+            let total: usize = *self.r.pick(&[40usize, 70_000, 200_000]);
+            let have = if total == 40 { 20 } else { 66_000 + self.r.usize(3000) };
+            let mut fr: Vec<u8> = vec![0x30];
+            rc::vbi_encode(total as u32, &mut fr);
+            fr.extend_from_slice(&[0, 1, b't']);
+            if ver == Ver::V5 {
+                fr.push(0);
+            }
+            fr.resize(have, b'z');
+            self.feed(&fr, &[]);
+            if !self.dead && self.model.armed.contains(&Timer::PingreqRecv) {
+                self.timer(Timer::PingreqRecv);
+            }
+            return;
+        }
         if self.r.below(100) < (if f == Focus::Timers { 6 } else { 1 }) {
-            let v = *self.r.pick(&[None, Some(0u64), Some(3000), Some(9000)]);
+            let v = *self.r.pick(&[None, Some(0u64), Some(3000), Some(9000), Some(9000), Some(1u64 << 32), Some((1u64 << 32) + 7), Some(u64::MAX)]);
             self.set_ping_interval(v);
             return;
         }
